@@ -1053,6 +1053,70 @@ Section Calm.
     | Check _ :: r => calm_hits w r
     end.
 
+  (* ---------- one step before calm: the finalizer is not yet as required ---------- *)
+  (* e.g. a new process with daemons meets an object without the finalizer, or the last daemon has gone and the
+     finalizer is still there: the first cycle only adds / removes the finalizer (a JSON-patch pinned to the version of
+     the view), and its echo is processed in a calm state *)
+  Record precalm (w : world) : Prop := mkPre {
+    p_up : m_up (w_mem w) = true;
+    p_car : m_carried (w_mem w) = [];
+    p_fin : w_need_fin w = negb (o_fin (w_srv w));
+    p_queue : m_queue (w_mem w) = [w_srv w];
+    p_exp : m_expected (w_mem w) = None \/ exists dl, m_expected (w_mem w) = Some (o_rv (w_srv w), dl);
+    p_dummy : o_dummy (w_srv w) = false;
+    p_recs : forall h, In h owned -> rget h (o_recs (w_srv w)) <> None -> In h (selected (w_srv w));
+  }.
+
+  Definition flipped (s : obj) (nf : bool) : obj := mkObj (S (o_rv s)) (o_ess s) (o_last s) (o_recs s) nf (o_dummy s).
+
+  Lemma calm_flipped s nf init now dl log :
+    (forall h, In h owned -> rget h (o_recs s) <> None -> In h (selected s)) ->
+    calm (mkWorld (flipped s nf) (mkMem true [flipped s nf] [] None (Some (o_rv (flipped s nf), dl)) init) nf now log).
+  Proof.
+    intro R. constructor; cbn [w_mem w_srv w_need_fin m_up m_carried m_queue m_expected m_timer]; try reflexivity; try discriminate.
+    - right. reflexivity.
+    - right. eexists. split; reflexivity.
+    - intros h Ih Rh. rewrite (selected_same (flipped s nf) s) by reflexivity. apply (R h Ih). exact Rh.
+  Qed.
+
+  Lemma precalm_step_eq orc w :
+    precalm w ->
+    calm_step orc w = mkWorld (flipped (w_srv w) (w_need_fin w))
+                              (mkMem true [flipped (w_srv w) (w_need_fin w)] [] None
+                                     (Some (o_rv (flipped (w_srv w) (w_need_fin w)), w_now w + T)) (m_initial (w_mem w)))
+                              (w_need_fin w) (w_now w) (w_log w).
+  Proof.
+    intro P. unfold calm_step. rewrite (p_queue w P). cbn zeta.
+    assert (E0 : forall m, m_expected m = m_expected (w_mem w) -> expect_after_event m (w_srv w) = None).
+    { intros m Em. unfold expect_after_event. rewrite Em. destruct (p_exp w P) as [E|(dl & E)]; rewrite E; [reflexivity|].
+      rewrite Nat.eqb_refl. reflexivity. }
+    rewrite (E0 (w_mem w) eq_refl). cbn [pending_at andb].
+    unfold CycleWorld.cycle. cbn [w_mem w_srv w_now w_need_fin w_log m_initial m_carried Nat.eqb negb andb].
+    assert (E1 : forall q c t i, expect_after_event (mkMem true q c t (m_expected (w_mem w)) i) (w_srv w) = None)
+      by (intros; apply E0; reflexivity).
+    rewrite !E1. cbn [pending_at negb orb andb].
+    rewrite (p_car w P), (p_fin w P).
+    pose proof (p_dummy w P) as PD.
+    unfold CycleWorld.process_at, flipped. rewrite some_handlers.
+    destruct (w_srv w) as [rv ess last recs fin dummy] eqn:S. cbn [o_fin o_dummy o_rv o_ess o_last o_recs] in *. subst dummy.
+    destruct fin; cbn; rewrite Nat.eqb_refl; cbn; rewrite app_nil_r, andb_true_r; reflexivity.
+  Qed.
+
+  Lemma precalm_step orc w : precalm w -> calm (calm_step orc w) /\ o_ess (w_srv (calm_step orc w)) = o_ess (w_srv w).
+  Proof.
+    intro P. rewrite (precalm_step_eq orc w P). split; [|reflexivity]. apply calm_flipped. apply (p_recs w P).
+  Qed.
+
+  Theorem precalm_settles w (first : hid -> outcome) (failing : list (hid -> outcome)) :
+    precalm w ->
+    exists n, let w' := drive (first :: failing ++ repeat ok n) w in
+      quiescent w' = true /\ settled (w_srv w') = true /\ o_ess (w_srv w') = o_ess (w_srv w).
+  Proof.
+    intro P. destruct (precalm_step first w P) as (C & E).
+    destruct (calm_settles (calm_step first w) failing C) as (n & Qn & Sn & En & _).
+    exists n. cbn zeta. cbn [drive]. split; [exact Qn|]. split; [exact Sn|]. rewrite En. exact E.
+  Qed.
+
   (* ---------- all of it together ---------- *)
   Theorem calm_convergence w (failing : list (hid -> outcome)) :
     calm w ->
